@@ -605,6 +605,32 @@ pub fn c09_traversals<P: Payload>(st: &State<P>) -> R {
             cmp_seq("prev_traverse-stepping", id, &got, &rexp)?;
             obs += 11;
         }
+        // clone_from between iterators over two different arenas (an edited copy and the original)
+        {
+            let mut b = st.arena.clone();
+            for h in live.iter().rev().take(3) {
+                m.nodes[*h].id.detach(&mut b);
+            }
+            for &h in live.iter().take(10) {
+                let id = m.nodes[h].id;
+                let mut t = id.traverse(&b);
+                t.clone_from(&id.traverse(a));
+                let mut d = id.descendants(&b);
+                d.clone_from(&id.descendants(a));
+                let mut an = id.ancestors(&b);
+                an.clone_from(&id.ancestors(a));
+                let mut rt = id.reverse_traverse(&b);
+                rt.clone_from(&id.reverse_traverse(a));
+                let ok = t.take(bound).eq(id.traverse(a).take(bound))
+                    && d.take(bound).eq(id.descendants(a).take(bound))
+                    && an.take(bound).eq(id.ancestors(a).take(bound))
+                    && rt.take(bound).eq(id.reverse_traverse(a).take(bound));
+                if !ok {
+                    bail!("iterator-clone_from", "an iterator over an edited copy of the arena that was overwritten with clone_from(&iterator over the original, start node {}) does not yield the original's sequence", usize::from(id));
+                }
+                obs += 4;
+            }
+        }
         // exhausted iterators stay exhausted (they are FusedIterator)
         for &h in live.iter().take(12) {
             let id = m.nodes[h].id;
@@ -725,6 +751,16 @@ pub fn c10_double_ended<P: Payload>(st: &State<P>, rng: &mut Rng, stats: &mut C1
         let mut patterns = 0u64;
         let mut pulls = 0u64;
         let mut classes = Vec::new();
+        // an edited copy of the arena (same ids, different links): an iterator over it that is overwritten
+        // with clone_from(&iterator over the original) must behave like the original's iterator
+        let edited = {
+            let mut b = st.arena.clone();
+            let live = m.live_handles();
+            for h in live.iter().rev().take(3) {
+                m.nodes[*h].id.detach(&mut b);
+            }
+            b
+        };
         for h in m.live_handles() {
             let id = m.nodes[h].id;
             classes.push(crate::exec::node_class(m, h));
@@ -820,6 +856,30 @@ pub fn c10_double_ended<P: Payload>(st: &State<P>, rng: &mut Rng, stats: &mut C1
                     };
                     if fw != mid || bw != rmid || cnt != mid.len() {
                         bail!(format!("{:?}-internal-iteration", kind), "{:?} of node {} after {} front and {} back pulls: fold visits {:?}, rfold visits {:?}, count() = {}; the remaining elements are {:?}", kind, usize::from(id), nf, nb, us(&fw), us(&bw), cnt, us(&mid));
+                    }
+                    obs += 1;
+                }
+                // clone_from across arenas
+                {
+                    let got: Vec<NodeId> = match kind {
+                        DeKind::Children => {
+                            let mut it = id.children(&edited);
+                            it.clone_from(&id.children(a));
+                            it.take(2 * a.count() + 3).collect()
+                        }
+                        DeKind::Preceding => {
+                            let mut it = id.preceding_siblings(&edited);
+                            it.clone_from(&id.preceding_siblings(a));
+                            it.take(2 * a.count() + 3).collect()
+                        }
+                        DeKind::Following => {
+                            let mut it = id.following_siblings(&edited);
+                            it.clone_from(&id.following_siblings(a));
+                            it.take(2 * a.count() + 3).collect()
+                        }
+                    };
+                    if got != f {
+                        bail!(format!("{:?}-clone_from", kind), "{:?} of node {}: an iterator over an edited copy of the arena, overwritten with clone_from(&iterator over the original), yields {:?}; the original's forward sequence is {:?}", kind, usize::from(id), us(&got), us(&f));
                     }
                     obs += 1;
                 }
